@@ -1,6 +1,6 @@
 """Tie of Model/ViewsN.v (C18, the glue around Model/Views.v) to the real library, evaluated on every run of the check.
 
-Correspondence (see .work/prover_C18_TIE.md); the model side is computed by coqc (vm_compute) during the run:
+Correspondence (see notes/prover_C18_TIE.md); the model side is computed by coqc (vm_compute) during the run:
 
   reciprocal_viewname_str (check_reciprocal_str)      vs  arim.ut.reciprocal_viewname(s)                 any str (code points < 256)
   default_viewname_order_str + skey_cmp (check_key_cmp) vs sign of the comparison of arim.ut.default_viewname_order(a), (b)
